@@ -28,6 +28,37 @@ CHECKS = {
          'Trusts R1; explicit flat windows are capped at 2^24 words; ops straddling bit 2^64 at w=64 are excluded here '
          '(finding F1, explored by C01).',
          'DESIGN.md section 3 C07'),
+ 'C17': ('model_checking',
+         'explicit-state search over the live device objects (deep-copied states, every method as a transition) vs a bit-packing / polling-protocol model',
+         'Breadth-first search from every input of length <= 2 over a 10-byte alphabet, all sequences of read / write0 / write1 / '
+         'get_output / get_output(allow_incomplete) up to depth 10 (12 thorough) on FixedIO and StandardIO (stdin/stdout replaced), '
+         'states de-duplicated by the full attribute dictionary; plus all 2^17-1 written bit strings of length <= 16, all 65 793 '
+         'inputs of length <= 2 read to EOF and beyond, all keyboard event scripts of <= 3 events over 32 event kinds (4-event '
+         'scripts in thorough) x 40 reads via both constructors, and BrokenIO call sequences.',
+         'A device state is its attribute dictionary (equal attributes, equal futures). Same-tic keyboard events are expected in script order.',
+         'DESIGN.md section 3 C17'),
+ 'C18': ('fault_enumeration',
+         'fault-point enumeration: every IO call index x fault kind x engine/storage/ring mode, state at the stop compared with the reference machine',
+         'For every program of a deterministic set (first image per behaviour class of the C01 enumerations, an endless output '
+         'loop, stl cat), a fault is injected at every IO call index: library IO error, IOReadOnEOF from read and from write, a '
+         'foreign exception, KeyboardInterrupt raised by the device, and a SIGINT made pending inside the call by a pure-C '
+         'callable (deterministic), on featured / fast / native flat, hybrid, paged, ring and measurement modes. Exception '
+         'mapping, op count, device-side calls, last-ops list and the memory read back through the retained DeviceMemory must '
+         'equal R1 after exactly the ops executed before the stop.',
+         'Asynchronous delivery of a real signal at other eval-breaker points of the pure-Python loops cannot be scheduled '
+         'deterministically and is outside the explored set; op count is unobservable when run() raises.',
+         'DESIGN.md section 3 C18'),
+ 'C19': ('model_checking',
+         'exhaustive device-access scripts injected at every IO call x engines x storage modes vs R1 with device ops; explicit-state search of the screen command decoder vs a model',
+         'Every sequence of <= 2 (3 thorough) device operations (read/write word, read/write packed byte) over in-segment '
+         'addresses chosen to collide with what the program does next (next op flip/jump word, flip targets, lazily-zero tail, '
+         'segment ends, far page) x values (0, all-ones, redirecting addresses, the w=64 fill constant) injected at each IO call, '
+         'on 11 engine/storage modes: returned values, later program behaviour and final memory must equal R1 extended with the '
+         'documented DeviceMemory semantics. The screen decoder is searched at byte level (every byte string to depth 8/9) and at '
+         'command level (all sequences of up to 3/4 commands over ~60 commands) against a model written from the docstring; the '
+         'two repository screen programs must present identical frames on every mode.',
+         'Device accesses outside segments, screens larger than 64 pixels and behaviour after a rejected stream are outside the bound.',
+         'DESIGN.md section 3 C19'),
 }
 
 NOT_YET = {
